@@ -104,7 +104,9 @@ def run_table(res, tier, seed, shard):
                 if verdict(h, bad, parent):
                     res.fail("checkpoint", "wrong-id-accepted:parent-" + parent, "candidate with a wrong id accepted at checkpoint height %d when its parent is present in the chain state (%s)" % (h, parent),
                              {"height": h, "id": bad.hex(), "parent": parent})
-                if not verdict(h, good, parent):
+                # (a candidate whose stored parent is NOT at height h-1 may be refused whatever its id: the property only says
+                # which ids may be accepted)
+                if (parent == "at_h-1" or h == 1) and not verdict(h, good, parent):
                     res.fail("checkpoint", "right-id-refused:parent-" + parent, "candidate with the checkpoint id refused at height %d (parent %s)" % (h, parent),
                              {"height": h, "id": good.hex(), "parent": parent})
         res.count("checkpoint_heights")
@@ -351,7 +353,8 @@ def run_ibd_store(res, tier, seed):
     g = R.dec_block(b.GENESIS)[0]
     sat = (R.TWO256 - 1).to_bytes(32, "big")
     try:
-        for k in ([499, 500] if tier == "quick" else [499, 500, 999, 498, 1000, 1499]):
+        plans = [(499, 0), (500, 0), (499, 1), (520, 1)] if tier == "quick" else [(499, 0), (500, 0), (999, 0), (498, 0), (1000, 0), (1499, 0), (499, 1), (520, 1), (1010, 1), (499, 2)]
+        for k, gap in plans:
             path = os.path.join(env.fresh_subdir("c18store"), "chain.db")
             with env.quiet():
                 store = BS.BlockStore(path)
@@ -363,20 +366,26 @@ def run_ibd_store(res, tier, seed):
             w = simnet.Wire(net, node)
             w.greet()
             prev, ts = g.id(), g.ts
-            for h in range(1, k + 2):
+            hdecl = 0
+            for pos in range(1, k + 2):
+                # gap = 1/2: the forged history never DECLARES a checkpointed height (position 500 calls itself 501 / 502, ...)
+                hdecl += 1
+                if gap and str(hdecl) in cp["known_hashes"]:
+                    hdecl += gap
+                h = hdecl
                 cb = R.RTx([(R.NULL32, 0, ("cb", h, b"alt"))], [(10 ** 9, bytes(64))])
                 ts += 1
-                blk = R.RBlock(h, prev, cb.id(), ts, sat, h, (R.NULL32,) * 3, [cb])
+                blk = R.RBlock(h, prev, cb.id(), ts, sat, pos, (R.NULL32,) * 3, [cb])
                 prev = blk.id()
                 w.msg_id += 1
-                irt = 99 if h <= k else 0                               # the last one is relayed unsolicited
+                irt = 99 if pos <= k else 0                             # the last one is relayed unsolicited
                 hdr = M.MessageHeader(1, w.msg_id, irt, 1).serialize()
                 data = hdr + M.MSG_DATA + b"\x00" + M.DATA_BLOCK + blk.raw()
                 w.node_sock.inflight += b"MAJI" + struct.pack(">I", len(data)) + data
-                if h % 50 == 0 or h >= k:
+                if pos % 50 == 0 or pos >= k:
                     net.drain(None, only=[node])
             res.evaluations += k + 1
-            res.nontrivial("ibd_store:%d" % k)
+            res.nontrivial("ibd_store:%d:%d" % (k, gap))
             cps = [h for h in range(500, k + 2, 500)]
             live = node.cm.coinstate
             store.close()
@@ -386,6 +395,14 @@ def run_ibd_store(res, tier, seed):
                 cs = read_chain_from_disk()
             store2.close()
             for name, st in (("the served chain state", live), ("the chain state rebuilt from the store after a restart", cs)):
+                # an active chain that reaches beyond a checkpointed height must contain the checkpoint block at that height
+                top = st.head().height
+                idx = st.by_height_at_head()
+                passed = [c for c in range(500, top + 1, 500) if str(c) in cp["known_hashes"] and (c not in idx or idx[c].hash().hex() != cp["known_hashes"][str(c)])]
+                if passed and top > passed[0]:
+                    res.fail("checkpoint", "alternative-history-passed-a-checkpoint" + ("-after-restart" if "restart" in name else ""),
+                             "%d forged blocks (%s) were served, the last one relayed: the head of %s is at height %d although its chain does not contain the checkpoint block of height %d" % (
+                                 k + 1, "declared heights skip the checkpointed ones" if gap else "consecutive heights", name, top, passed[0]), {"ibd_store": k, "gap": gap})
                 wrong = [x.height for x in st.block_by_hash.values() if str(x.height) in cp["known_hashes"] and x.hash().hex() != cp["known_hashes"][str(x.height)]]
                 if wrong:
                     res.fail("checkpoint", "wrong-id-block-at-checkpoint-height-after-restart" if "restart" in name else "wrong-id-block-at-checkpoint-height",
